@@ -131,3 +131,20 @@ package oxia
 //@ requires su.shardManager != nil && su.clientPool != nil && su.backoff != nil && su.ctx != nil
 //@ assert at call GetSequenceUpdates#0: in != nil && in.Key == su.prefixKey && in.Shard == callres_Get_0
 //@ modifies *
+
+// The channel a Get hands back has room for its one result: the shard's batcher goroutine,
+// which delivers the result, never waits for the application to read it (otherwise the
+// completion of the other operations batched on that shard would depend on the order in
+// which the application reads its results, or on whether it reads them at all).
+//
+//@ func newGetOptions
+//@ trusted
+//@ modifies nothing
+//@ ensures result != nil && fresh(result)
+
+//@ func clientImpl.Get(c, key, options) (res)
+//@ property C20
+//@ chanstate
+//@ assert at call doMultiShardGet#0: ghost(chancap, ch) >= 1 && ghost(closed, ch) == 0
+//@ assert at call doSingleShardGet#0: ghost(chancap, ch) >= 1 && ghost(closed, ch) == 0
+//@ modifies *
